@@ -92,10 +92,23 @@ class Recorder:
             rec["idx"] = [int(v) for v in r]
             return r
 
+        real_cb = mcmc.check_bounds
+
+        def spy_cb(u, periodic=None, reflective=None):
+            out = real_cb(u, periodic, reflective)
+            if getattr(u, "ndim", 1) == 2 and sys._getframe(1).f_code.co_name == "run":
+                rec["pending_inb"] = np.atleast_1d(out).copy()
+            return out
+
         def wrap_factor(orig):
             def f(self_, u_prime, logl_prime):
                 out = orig(self_, u_prime, logl_prime)
-                rec["steps"].append({"u": np.array(u_prime), "l": np.array(logl_prime, dtype=float), "f": np.array(out, dtype=float), "r": None})
+                l = np.array(logl_prime, dtype=float)
+                inb = rec.pop("pending_inb", None)
+                if inb is not None:
+                    # a proposal outside the prior cube has zero target density: on the tape it is a -inf proposal
+                    l = np.where(inb, l, -np.inf)
+                rec["steps"].append({"u": np.array(u_prime), "l": l, "f": np.array(out, dtype=float), "r": None})
                 return out
             return f
 
@@ -106,6 +119,7 @@ class Recorder:
             return f
         patches = [common.patched(np.random, "rand", rand), common.patched(np.random, "random", random),
                    common.patched(np.random, "choice", choice), common.patched(rsm, "systematic_resample", spy_sr),
+                   common.patched(mcmc, "check_bounds", spy_cb),
                    common.patched(mcmc.TPCNRunner, "_compute_acceptance_factor", wrap_factor(mcmc.TPCNRunner._compute_acceptance_factor)),
                    common.patched(mcmc.RWMRunner, "_compute_acceptance_factor", wrap_factor(mcmc.RWMRunner._compute_acceptance_factor)),
                    common.patched(mcmc.BaseMCMCRunner, "_update_progress_bar", wrap_pb(mcmc.BaseMCMCRunner._update_progress_bar))]
